@@ -32,7 +32,9 @@ var vScaleTargets = []int{-1, 0, 1, 2, 3, 9, 10, 11}
 // its own state, log and configuration rendered for its replica number - the same set a fresh
 // load with replicas: n produces; survivors are not restarted, removed ones are terminated,
 // added ones launched, other processes untouched; n < 1 and unknown names fail without effect.
-func verifScaleBody(requests int) {
+func verifScaleBody(requests int) { verifScaleBodyT(requests, vScaleTargets, 12, true) }
+
+func verifScaleBodyT(requests int, targets []int, maxIdx int, variants bool) {
 	w := vInit()
 	vBindHealth()
 	r0 := []int{1, 2, 3}[verifChooseK("initial.replicas", 3)]
@@ -45,7 +47,7 @@ func verifScaleBody(requests int) {
 			continue
 		}
 		key := "p/" + strconv.Itoa(pc.ReplicaNum)
-		if verifChooseK("completed."+key, 2) == 1 {
+		if variants && verifChooseK("completed."+key, 2) == 1 {
 			completed[key] = true
 			w.behavKey[key] = &vBehav{codes: []int{0}}
 			_ = nm
@@ -57,7 +59,7 @@ func verifScaleBody(requests int) {
 	verifQuiesce()
 	cur := r0
 	for k := 0; k < requests; k++ {
-		n := vScaleTargets[verifChooseK("scale.to."+strconv.Itoa(k), len(vScaleTargets))]
+		n := targets[verifChooseK("scale.to."+strconv.Itoa(k), len(targets))]
 		verifShape(strconv.Itoa(cur) + "->" + strconv.Itoa(n))
 		// any current replica name addresses the process
 		name := "p"
@@ -65,7 +67,7 @@ func verifScaleBody(requests int) {
 			name = (&types.ProcessConfig{Name: "p", Replicas: cur, ReplicaNum: 0}).CalculateReplicaName()
 		}
 		keysBefore, aliveBefore := map[string]int{}, map[string]int{}
-		for i := 0; i < 12; i++ {
+		for i := 0; i < maxIdx; i++ {
 			key := "p/" + strconv.Itoa(i)
 			keysBefore[key], aliveBefore[key] = vGet(w.startKey, key), vGet(w.aliveKey, key)
 		}
@@ -77,7 +79,7 @@ func verifScaleBody(requests int) {
 			verifAssert("scale.succeeds", err == nil)
 			cur = n
 		}
-		if verifChooseK("unknown.name."+strconv.Itoa(k), 2) == 1 {
+		if variants && verifChooseK("unknown.name."+strconv.Itoa(k), 2) == 1 {
 			verifAssert("unknown.name.fails", r.ScaleProcess("nope", 2) != nil)
 			verifQuiesce()
 		}
@@ -125,7 +127,7 @@ func verifScaleBody(requests int) {
 		}
 		// survivors are not restarted, added replicas are launched once, removed ones are gone
 		verifAssert("bystander.untouched", vGet(w.starts, "q") == 1 && vGet(w.alive, "q") == 1)
-		for i := 0; i < 12; i++ {
+		for i := 0; i < maxIdx; i++ {
 			key := "p/" + strconv.Itoa(i)
 			was, is := keysBefore[key], vGet(w.startKey, key)
 			alive := vGet(w.aliveKey, key)
@@ -154,3 +156,9 @@ func verifScaleBody(requests int) {
 
 func VerifC13_Scale1() { verifScaleBody(1) }
 func VerifC13_Scale2() { verifScaleBody(2) }
+
+// across the 99/100 name-width boundary (thorough): two successive requests from {99,100,101}
+func VerifC13_Scale100() {
+	verifUnwind(4000)
+	verifScaleBodyT(2, []int{99, 100, 101}, 102, false)
+}
